@@ -252,13 +252,15 @@ class EditDistance(SequenceEdit):
             # Tighten the entire fringe diagonal until every node in it is definitive
             if not self._next_fringe():
                 assert self.is_complete()
-                if not self.edit_matrix[-1][-1].bounds().definitive():
-                    ret = self.tighten_bounds()
-                else:
-                    ret = False
-                if not ret:
-                    self._cleanup()
-                return ret
+                # The lower right cell is the last fringe diagonal. Like every other cell, it has to be fully tightened
+                # before self.edits() accumulates its cost into self.costs; otherwise self.bounds() would report a
+                # "definitive" cost that was derived from a non-definitive upper bound.
+                while self.edit_matrix[-1][-1].tighten_bounds():
+                    pass
+                new_bounds = self.bounds()
+                self._cleanup()
+                return new_bounds.upper_bound < initial_bounds.upper_bound or \
+                    new_bounds.lower_bound > initial_bounds.lower_bound
 
             if not first_fringe:
                 if DEFAULT_PRINTER.quiet:
